@@ -819,18 +819,30 @@ DReferenced(src, o) ==
            : r \in SeqToSet(DRels(DContainers(src)))}
 IsDot(step) == step.op.op = "Dot" /\ step.exc = "none"
 C15_accepted(step) == Cl("C15_accepted", step.op.op = "Dot", step.exc = "none" /\ step.res.ok)
+(* Nodes that carry a URL stand for names.  Per container c (the URL of the cluster the node is  *)
+(* drawn in; NONE = top level) and URL u: every element record is drawn (at least as many nodes  *)
+(* as element records of that identifier there); beyond the element records a name has at most   *)
+(* ONE further node in the whole drawing (the node of a merely referenced name, which may have   *)
+(* been drawn before a later bundle declared it); nothing else has a node.  No shape, colour or  *)
+(* object name of the library's style is used.                                                   *)
+DConUrl(src, n) == IF n = 0 THEN NONE ELSE src.bundles[n].id
 C15_nodes(step) ==
   LET cs == DContainers(step.src)
-      want == FlattenSeq([i \in 1..Len(cs) |->
-                 LET es == DElsOf(cs[i]) IN
-                 [j \in 1..Len(es) |-> [url |-> es[j].id, shape |-> DShape[es[j].k], c |-> cs[i].n]]])
-      got == [i \in 1..Len(step.res.nodes) |->
-                [url |-> step.res.nodes[i].url, shape |-> step.res.nodes[i].shape, c |-> step.res.nodes[i].c]]
+      nodes == step.res.nodes
+      declIn(i, u) == Cardinality({j \in 1..Len(DElsOf(cs[i])) : DElsOf(cs[i])[j].id = u})
+      declAll(u) == LET RECURSIVE sum(_)
+                        sum(i) == IF i = 0 THEN 0 ELSE declIn(i, u) + sum(i - 1)
+                    IN sum(Len(cs))
+      drawnIn(i, u) == Cardinality({k \in 1..Len(nodes) : nodes[k].url = u /\ nodes[k].c = DConUrl(step.src, cs[i].n)})
+      drawnAll(u) == Cardinality({k \in 1..Len(nodes) : nodes[k].url = u})
+      urls == {nodes[k].url : k \in 1..Len(nodes)}
+              \cup UNION {{DElsOf(cs[i])[j].id : j \in 1..Len(DElsOf(cs[i]))} : i \in 1..Len(cs)}
+      refd == DReferenced(step.src, step.op.opts)
   IN Cl("C15_nodes", IsDot(step) /\ step.res.ok,
-        /\ SameBag(got, want)
-        /\ \A u \in DReferenced(step.src, step.op.opts) :
-              (\E i \in 1..Len(step.res.nodes) : step.res.nodes[i].url = u) \/ u \in SeqToSet(step.res.generic)
-        /\ SeqToSet(step.res.generic) \subseteq DReferenced(step.src, step.op.opts))
+        /\ \A u \in urls : \A i \in 1..Len(cs) : drawnIn(i, u) >= declIn(i, u)
+        /\ \A u \in urls : drawnAll(u) <= declAll(u) + (IF u \in refd THEN 1 ELSE 0)
+        /\ \A u \in refd : drawnAll(u) >= 1
+        /\ \A k \in 1..Len(nodes) : \E i \in 1..Len(cs) : nodes[k].c = DConUrl(step.src, cs[i].n))
 C15_edges(step) ==
   LET rels == DRels(DContainers(step.src))
       want == [i \in 1..Len(rels) |-> DPath(rels[i], step.op.opts)]
@@ -844,8 +856,7 @@ C15_edges(step) ==
 C15_clusters(step) ==
   Cl("C15_clusters", IsDot(step) /\ step.res.ok,
      /\ Len(step.res.clusters) = Len(step.src.bundles)
-     /\ \A i \in 1..Len(step.res.clusters) :
-          \E j \in 1..Len(step.src.bundles) : step.res.clusters[i].n = j /\ step.res.clusters[i].url = step.src.bundles[j].id)
+     /\ {step.res.clusters[i].url : i \in 1..Len(step.res.clusters)} = {step.src.bundles[j].id : j \in 1..Len(step.src.bundles)})
 C15_annotations(step) ==
   LET o == step.op.opts
       cs == DContainers(step.src)
@@ -866,11 +877,21 @@ C15_annotations(step) ==
 (* (this is what detects markup injection that happens to stay well-formed)                *)
 C15_labels(step) ==
   LET cs == DContainers(step.src)
-      labelsOf(n) == UNION {{x.v.v : x \in {y \in r.attrs : y.a = ProvU("label") /\ y.v.t \in {"str", "lang"}}}
-                              : r \in {q \in SeqToSet(DElsOf(cs[n.c + 1])) : q.id = n.url /\ q.k = n.kind}}
-      labelled == {i \in 1..Len(step.res.nodes) : labelsOf(step.res.nodes[i]) # {}}
-  IN Cl("C15_labels", IsDot(step) /\ step.res.ok /\ step.op.opts.labels /\ labelled # {},
-        \A i \in labelled : LET n == step.res.nodes[i] IN n.nruns = 2 /\ SeqToSet(n.text1) \cap labelsOf(n) # {})
+      nodes == step.res.nodes
+      labOf(r) == {x.v.v : x \in {y \in r.attrs : y.a = ProvU("label") /\ y.v.t \in {"str", "lang"}}}
+      conOf(n) == {i \in 1..Len(cs) : DConUrl(step.src, cs[i].n) = n.c}
+      labelsOf(n) == UNION {labOf(r) : r \in UNION {{q \in SeqToSet(DElsOf(cs[i])) : q.id = n.url} : i \in conOf(n)}}
+      labelledRecs == {ij \in UNION {{<<i, j>> : j \in 1..Len(DElsOf(cs[i]))} : i \in 1..Len(cs)} :
+                         labOf(DElsOf(cs[ij[1]])[ij[2]]) # {}}
+      shows(k, L) == nodes[k].nruns = 2 /\ SeqToSet(nodes[k].text1) \cap L # {}
+  IN Cl("C15_labels", IsDot(step) /\ step.res.ok /\ step.op.opts.labels /\ labelledRecs # {},
+        \* every labelled element record has a node (there, under its URL) whose first rendered run is
+        \* one of its labels, followed by the identifier ...
+        /\ \A ij \in labelledRecs :
+              LET r == DElsOf(cs[ij[1]])[ij[2]] IN
+              \E k \in 1..Len(nodes) : nodes[k].url = r.id /\ nodes[k].c = DConUrl(step.src, cs[ij[1]].n) /\ shows(k, labOf(r))
+        \* ... and a node drawn with two runs shows a label of a record of that name (nothing injected)
+        /\ \A k \in 1..Len(nodes) : (nodes[k].nruns >= 2 /\ labelsOf(nodes[k]) # {}) => shows(k, labelsOf(nodes[k])))
 C15_rankdir(step) ==
   Cl("C15_rankdir", IsDot(step) /\ step.res.ok,
      step.res.rankdir = (IF step.op.opts.dir \in {"BT", "TB", "LR", "RL"} THEN step.op.opts.dir ELSE "BT"))
